@@ -18,7 +18,7 @@ from lib import lang as L, refsem, polar_driver as pd, common, snapshot
 
 PROPERTY_ID = "C15"
 RULE = (
-    "networks with 1-4 variables (domains of 2-3 values, names incl. hyphens, upper case and sanitising collisions), random DAG, CPT rows in hundredths summing to "
+    "networks with 1-4 variables (domains of 2-3 values, names incl. hyphens, upper case, sanitising collisions and names that lower-case to CAS constants: E, Pi, I), random DAG, CPT rows in hundredths summing to "
     "exactly 1; 25% of the cases carry one defect (row sum off by 0.002 / 0.01 / 0.05, a missing row, a missing table value); notation per CPT drawn from table / "
     "entries / default+entries; sub-checks: parse+model equality (all), generated loop joint pmf (40%), exact-inference query (30%), sampling-time query (15%); "
     "non-trivial = >= 2 variables with an edge and evidence probability strictly between 0 and 1; distinct by the BIF text and query"
@@ -29,7 +29,7 @@ ASSUMPTIONS = [
     "loop and query clauses are judged only on models whose rows sum to exactly 1",
 ]
 
-NAMES = ["A", "rain", "Wet-Grass", "x1", "Node_2", "smoke", "B-c", "Bc"]
+NAMES = ["A", "rain", "Wet-Grass", "x1", "Node_2", "smoke", "B-c", "Bc", "E", "Pi", "I"]  # E, Pi, I: lower-cased they are constants of the CAS (survey network: A, S, E, O, R, T)
 VALS = [["yes", "no"], ["t", "f"], ["low", "mid", "high"], ["0", "1"], ["a", "b", "c"], ["on", "off"]]
 
 
@@ -204,7 +204,14 @@ def run_case(case, tier="quick"):
             cg = CodeGenerator(net)
             code = cg.generate_code()
             with pd.time_limit(tl):
-                prog = pd.parse(code)
+                try:
+                    prog = pd.parse(code)
+                except pd.CaseTimeout:
+                    raise
+                except Exception as e:
+                    # the program text is Polar's own output for a well-formed network
+                    return dict(base, status="violation", bucket="generated_program_rejected:" + type(e).__name__, nontrivial=True,
+                                detail={"bif": text, "code": code, "error": str(e)[-300:]})
                 ast = snapshot.program_to_ast(prog)
                 it = refsem.Interp(ast, uninit={}, max_states=5000)
                 d1 = it.run(1)[1]
@@ -246,6 +253,9 @@ def run_case(case, tier="quick"):
         except pd.CaseTimeout:
             return dict(base, status="inconclusive", bucket="polar_time_limit")
         except Exception as e:
+            if "lark" in type(e).__module__ or "inputparser" in pd.refusal_bucket(e):
+                return dict(base, status="violation", bucket="generated_program_rejected:" + type(e).__name__, nontrivial=True,
+                            detail={"bif": text, "query": args.exact_inference or args.sample_time_until, "error": str(e)[-300:]})
             return dict(base, status="refusal", bucket=pd.refusal_bucket(e), detail=str(e)[:200])
         out = buf.getvalue()
         m = re.search(r"^E\(.*\) = (.*) ≈ ", out, re.M) if case["what"] == "inference" else re.search(r"is (.*) ≈ ", out)
